@@ -3239,3 +3239,139 @@ func ruleC04_10(c *Ctx, r *Rep) {
 	}
 	r.Floor("C04.10", n, 2)
 }
+
+// ---------------------------------------------------------------------------
+// C17.6: a value that is optional on the wire is acted on whenever it is present. Where a call consumes a value V
+// (a request's id list, an optional setting) under a guard that compares V — or len(V) — with an integer constant
+// from below, the guard is the presence test itself (`!= 0`, `> 0`, `>= 1`). A guard such as `> 1` keeps compiling,
+// and silently ignores the legitimate smallest values: a StreamingPull frame acking exactly one id, a dead-letter
+// policy of one attempt.
+func ruleC17_6(c *Ctx, r *Rep) {
+	n := 0
+	for _, f := range c.Funcs {
+		pk := c.PkgOf(f)
+		if !(pk == "services" || pk == "actions") || c.testSupport(f) || c.EntShape().isGenerated(f) {
+			continue
+		}
+		for _, b := range f.Blocks {
+			type guard struct {
+				key  string
+				op   token.Token
+				k    int64
+				what string
+			}
+			var gs []guard
+			for _, cd := range edgeConds(b) {
+				bo, ok := cd.V.(*ssa.BinOp)
+				if !ok {
+					continue
+				}
+				x, y, op := bo.X, bo.Y, bo.Op
+				if _, isK := x.(*ssa.Const); isK {
+					x, y = y, x
+					switch op {
+					case token.LSS:
+						op = token.GTR
+					case token.GTR:
+						op = token.LSS
+					case token.LEQ:
+						op = token.GEQ
+					case token.GEQ:
+						op = token.LEQ
+					}
+				}
+				k, isK := constInt(y)
+				if !isK {
+					continue
+				}
+				if !cd.Pol {
+					switch op {
+					case token.EQL:
+						op = token.NEQ
+					case token.NEQ:
+						op = token.EQL
+					case token.LSS:
+						op = token.GEQ
+					case token.GEQ:
+						op = token.LSS
+					case token.GTR:
+						op = token.LEQ
+					case token.LEQ:
+						op = token.GTR
+					default:
+						continue
+					}
+				}
+				what := ""
+				base := strip(x)
+				if cl, isC := base.(*ssa.Call); isC {
+					if bi, isB := cl.Call.Value.(*ssa.Builtin); isB && bi.Name() == "len" && len(cl.Call.Args) == 1 {
+						base = strip(cl.Call.Args[0])
+						what = "len of "
+					} else {
+						continue
+					}
+				}
+				if _, isK := base.(*ssa.Const); isK {
+					continue
+				}
+				gs = append(gs, guard{valKey(base), op, k, what})
+			}
+			if len(gs) == 0 {
+				continue
+			}
+			for _, in := range b.Instrs {
+				ci, ok := in.(ssa.CallInstruction)
+				if !ok {
+					continue
+				}
+				if _, isB := ci.Common().Value.(*ssa.Builtin); isB {
+					continue
+				}
+				if cal := ci.Common().StaticCallee(); cal != nil && !strings.HasPrefix(fnPkgPath(cal), modPath) {
+					continue
+				}
+				for _, a := range ci.Common().Args {
+					ak := valKey(strip(a))
+					for _, g := range gs {
+						if g.key != ak {
+							continue
+						}
+						lower := g.op == token.NEQ || g.op == token.GTR || g.op == token.GEQ
+						if !lower {
+							continue
+						}
+						n++
+						nm := shortKey(ak)
+						if regRe.MatchString(nm) {
+							nm = "arg-of:" + calleeName(ci)
+						}
+						ok := g.op == token.NEQ && g.k == 0 || g.op == token.GTR && g.k == 0 || g.op == token.GEQ && g.k == 1
+						r.Check("C17.6", fmt.Sprintf("C17.6:presence-guard:%s@%s", nm, c.Key(top(f))), in.Pos(), ok, "",
+							fmt.Sprintf("the call consuming %s runs only when %sit is %s %d — not whenever it is present (`!= 0`): the smallest legitimate values are silently ignored (a frame acking one id acks nothing; a policy of one attempt is stored as no policy)", nm, g.what, g.op, g.k))
+					}
+				}
+			}
+		}
+	}
+	r.Floor("C17.6", n, 3)
+}
+
+func shortKey(k string) string {
+	if i := strings.LastIndex(k, "."); i >= 0 && i+1 < len(k) {
+		return k[i+1:]
+	}
+	return k
+}
+
+var regRe = regexp.MustCompile(`^t\d+(#.*)?$`)
+
+func calleeName(ci ssa.CallInstruction) string {
+	if f := ci.Common().StaticCallee(); f != nil {
+		return f.Name()
+	}
+	if ci.Common().IsInvoke() {
+		return ci.Common().Method.Name()
+	}
+	return "dynamic"
+}
